@@ -317,7 +317,7 @@ def case_sign(kind, E, N, D):
             if kind == "msm-invvar":
                 # variances assumed non-zero (stated)
                 for b in ctx.scratch.get("denominators", []):
-                    ctx.assume(b != 0)
+                    ctx.assume(b != 0, check=False)
             ctx.prove(lift(v) >= 0, "nonnegative", kind)
             if kind in zero_kinds:
                 eqsim = np.empty((E, N, D), dtype=object)
@@ -343,7 +343,7 @@ def case_sign(kind, E, N, D):
             return True, f"{kind} raised {type(e).__name__}: {e}"
         return False, "ok"
 
-    return Case(name, body, replay, time_budget=300, solver_timeout_ms=60000)
+    return Case(name, body, replay, time_budget=300, solver_timeout_ms=8000)
 
 
 def case_lengths(D):
